@@ -121,6 +121,33 @@ fn op_from_json(v: &Value) -> Op {
 }
 
 // ---------------------------------------------------------------------------------------------
+// how returned values are written down (the same for the real reader and the reference): strings in Debug
+// form; strings of more than 256 bytes length-prefixed and verbatim (exact, and much cheaper to produce for
+// the inputs of several buffer sizes)
+
+fn show_str(s: &str) -> String {
+    if s.len() <= 256 {
+        format!("{:?}", s)
+    } else {
+        let mut o = String::with_capacity(s.len() + 24);
+        o.push_str(&format!("long[{}]:", s.len()));
+        o.push_str(s);
+        o
+    }
+}
+
+fn show_opt(s: &Option<String>) -> String {
+    match s {
+        Some(s) => format!("Some({})", show_str(s)),
+        None => "None".to_string(),
+    }
+}
+
+fn show_vec(v: &[String]) -> String {
+    format!("[{}]", v.iter().map(|x| show_str(x)).collect::<Vec<_>>().join(", "))
+}
+
+// ---------------------------------------------------------------------------------------------
 // reference parser: the whole byte string, a cursor, nothing else
 
 fn is_ws(b: u8) -> bool {
@@ -151,7 +178,7 @@ impl<'a> RefP<'a> {
     }
     fn tok(&mut self, ty: Ty) -> Option<String> {
         match ty {
-            Ty::Str => self.token().map(|t| format!("{:?}", String::from_utf8_lossy(t))),
+            Ty::Str => self.token().map(|t| show_str(&String::from_utf8_lossy(t))),
             Ty::Char => {
                 self.skip();
                 if self.p == self.s.len() {
@@ -199,13 +226,13 @@ impl<'a> RefP<'a> {
     fn run(&mut self, op: &Op) -> Option<String> {
         Some(match op {
             Op::Tok(t) => self.tok(*t)?,
-            Op::Line => format!("{:?}", self.line()),
+            Op::Line => show_opt(&self.line()),
             Op::Lines => {
                 let mut v = vec![];
                 while let Some(l) = self.line() {
                     v.push(l);
                 }
-                format!("{:?}", v)
+                show_vec(&v)
             }
             Op::Eof => {
                 self.skip();
@@ -251,14 +278,20 @@ struct Src<'a> {
     next: usize,
     calls: &'a Cell<usize>,
     first_buf: &'a Cell<usize>,
+    /// the largest number of bytes the reader ever asked for in one call
+    max_ask: &'a Cell<usize>,
 }
 
+/// `Step::Give(k)` hands over min(k, bytes asked for, bytes left): the source never caps a request at the
+/// reader's buffer size, so under the default answer `Give(usize::MAX)` a reader that asks for more than its
+/// buffer holds gets as much as it asked for, however much that is (what `Cursor` and files do).
 impl Read for Src<'_> {
     fn read(&mut self, buf: &mut [u8]) -> std::io::Result<usize> {
         self.calls.set(self.calls.get() + 1);
         if self.first_buf.get() == 0 {
             self.first_buf.set(buf.len());
         }
+        self.max_ask.set(self.max_ask.get().max(buf.len()));
         let step = if self.next < self.plan.len() {
             self.next += 1;
             self.plan[self.next - 1]
@@ -291,7 +324,7 @@ fn render_tok(r: &mut Reader, ty: Ty) -> String {
         Ty::U128 => r.read::<u128>().to_string(),
         Ty::Isize => r.read::<isize>().to_string(),
         Ty::Usize => r.read::<usize>().to_string(),
-        Ty::Str => format!("{:?}", r.read::<String>()),
+        Ty::Str => show_str(&r.read::<String>()),
         Ty::Char => format!("{:?}", r.read::<char>()),
     }
 }
@@ -315,7 +348,7 @@ fn render_vec(r: &mut Reader, ty: Ty, n: usize) -> String {
         Ty::U128 => v!(u128),
         Ty::Isize => v!(isize),
         Ty::Usize => v!(usize),
-        Ty::Str => format!("[{}]", r.read_vec::<String>(n).iter().map(|x| format!("{:?}", x)).collect::<Vec<_>>().join(", ")),
+        Ty::Str => show_vec(&r.read_vec::<String>(n)),
         Ty::Char => format!("[{}]", r.read_vec::<char>(n).iter().map(|x| format!("{:?}", x)).collect::<Vec<_>>().join(", ")),
     }
 }
@@ -330,15 +363,15 @@ fn render_tup(r: &mut Reader, ts: &[Ty]) -> String {
         }
         [I32, Str] => {
             let (a, b): (i32, String) = r.read();
-            format!("({}, {:?})", a, b)
+            format!("({}, {})", a, show_str(&b))
         }
         [Str, U8] => {
             let (a, b): (String, u8) = r.read();
-            format!("({:?}, {})", a, b)
+            format!("({}, {})", show_str(&a), b)
         }
         [I8, U64, Str] => {
             let (a, b, c): (i8, u64, String) = r.read();
-            format!("({}, {}, {:?})", a, b, c)
+            format!("({}, {}, {})", a, b, show_str(&c))
         }
         [I64, I64, I64] => {
             let (a, b, c): (i64, i64, i64) = r.read();
@@ -362,7 +395,7 @@ fn render_tup(r: &mut Reader, ts: &[Ty]) -> String {
         }
         [I8, U8, I16, U16, I32, U32, I64, Str] => {
             let (a, b, c, d, e, f, g, h): (i8, u8, i16, u16, i32, u32, i64, String) = r.read();
-            format!("({}, {}, {}, {}, {}, {}, {}, {:?})", a, b, c, d, e, f, g, h)
+            format!("({}, {}, {}, {}, {}, {}, {}, {})", a, b, c, d, e, f, g, show_str(&h))
         }
         _ => panic!("harness: tuple shape {:?} not wired", ts),
     }
@@ -385,21 +418,23 @@ struct Exec {
     out: Result<Vec<String>, String>,
     calls: usize,
     first_buf: usize,
+    max_ask: usize,
 }
 
 /// One execution of the REAL reader.
 fn run_real(input: &[u8], plan: &[Step], script: &[Op]) -> Exec {
     let calls = Cell::new(0);
     let first_buf = Cell::new(0);
+    let max_ask = Cell::new(0);
     let out = catch(|| {
-        let src = Src { data: input, pos: 0, plan, next: 0, calls: &calls, first_buf: &first_buf };
+        let src = Src { data: input, pos: 0, plan, next: 0, calls: &calls, first_buf: &first_buf, max_ask: &max_ask };
         let mut r = Reader::new(Box::new(src));
         let mut res = vec![];
         for op in script {
             res.push(match op {
                 Op::Tok(t) => render_tok(&mut r, *t),
-                Op::Line => format!("{:?}", r.read_line()),
-                Op::Lines => format!("{:?}", r.read_lines()),
+                Op::Line => show_opt(&r.read_line()),
+                Op::Lines => show_vec(&r.read_lines()),
                 Op::Eof => format!("{}", r.is_eof()),
                 Op::Vec(t, n) => render_vec(&mut r, *t, *n),
                 Op::Tup(ts) => render_tup(&mut r, ts),
@@ -407,7 +442,7 @@ fn run_real(input: &[u8], plan: &[Step], script: &[Op]) -> Exec {
         }
         res
     });
-    Exec { out, calls: calls.get(), first_buf: first_buf.get() }
+    Exec { out, calls: calls.get(), first_buf: first_buf.get(), max_ask: max_ask.get() }
 }
 
 // ---------------------------------------------------------------------------------------------
@@ -429,6 +464,9 @@ enum Delivery {
     TwoDeviations,
     /// long input: listed plans only
     Listed,
+    /// input of several buffer sizes: whole-input delivery, uniform chunks around the buffer size and above
+    /// it, and the listed plans
+    Huge,
     /// every uniform chunk size 1..=L (a threshold on "how much is already buffered" flips somewhere in
     /// between), plus everything TwoDeviations does
     SweepAndTwo,
@@ -474,10 +512,30 @@ fn with_interrupts(base: &[Step], at: &[usize]) -> Vec<Step> {
     out
 }
 
-fn plans_for(case: &Case, listed: &[Vec<Step>]) -> Vec<Vec<Step>> {
+/// Deliveries of an input of several buffer sizes `b`.  The default answer (plan []) already is "as much as
+/// is asked for, however much that is"; on top of it: uniform chunks of b-1, b, b+1, 2b and 3b+1 bytes
+/// (the larger ones differ from the default only for a reader that asks for more than b at a time — then
+/// they cap what it gets, where the default does not), a half-buffer first read that shifts every later
+/// buffer boundary, and the deviation plans of the buffer-boundary family with shifts of 1 and 7 bytes (with
+/// the -1/+0/+1 of the head lengths, a head ends 0..2 and 6..8 bytes off a shifted boundary).
+fn huge_plans(b: usize, len: usize) -> Vec<Vec<Step>> {
+    let mut out: Vec<Vec<Step>> = vec![vec![]];
+    for k in [b - 1, b, b + 1, 2 * b, 3 * b + 1] {
+        // enough steps even if every call is offered (and takes) only b bytes
+        out.push(vec![Step::Give(k); len / k.min(b) + 2]);
+    }
+    let mut shifted = vec![Step::Give(b / 2 + 1)];
+    shifted.extend(vec![Step::Give(b); len / b + 2]);
+    out.push(shifted);
+    out.extend(deviation_plans(b, &[1, 7]).into_iter().filter(|p| !p.is_empty()));
+    out
+}
+
+fn plans_for(case: &Case, listed: &[Vec<Step>], b: usize) -> Vec<Vec<Step>> {
     let len = case.input.len();
     match case.mode {
         Delivery::Listed => listed.to_vec(),
+        Delivery::Huge => huge_plans(b, len),
         Delivery::AllChunkings { interrupts } => {
             let mut out = vec![];
             let nmask = if len == 0 { 1 } else { 1u64 << (len - 1) };
@@ -503,7 +561,7 @@ fn plans_for(case: &Case, listed: &[Vec<Step>]) -> Vec<Vec<Step>> {
         Delivery::SweepAndTwo => {
             let mut c2 = case.clone();
             c2.mode = Delivery::TwoDeviations;
-            let mut out = plans_for(&c2, listed);
+            let mut out = plans_for(&c2, listed, b);
             for k in 1..=len {
                 out.push(vec![Step::Give(k); (len + k - 1) / k]);
                 // the same with the first chunk shorter, so that chunk boundaries fall elsewhere
@@ -866,10 +924,14 @@ fn build_boundary_cases(b: usize, quick: bool) -> (Vec<Case>, Vec<Vec<Step>>) {
         input[n - 1] = b'\r';
         cases.push(Case { input, script: vec![Op::Line, Op::Line, Op::Eof], mode: Delivery::Listed });
     }
-    // plans: default; one short read that moves the boundary by 1..3 bytes; an Interrupted before the
-    // first / second / third call; both
+    (cases, deviation_plans(b, &[1, 2, 3, 7]))
+}
+
+/// The listed plans for long inputs: default; one short read that moves the buffer boundary by k bytes (k of
+/// `ks`); an Interrupted before the first / second / third call; both.
+fn deviation_plans(b: usize, ks: &[usize]) -> Vec<Vec<Step>> {
     let mut plans: Vec<Vec<Step>> = vec![vec![]];
-    for k in [1usize, 2, 3, 7] {
+    for &k in ks {
         plans.push(vec![Step::Give(b - k)]);
         plans.push(vec![Step::Give(k)]);
         plans.push(vec![Step::Give(b - k), Step::Interrupted]);
@@ -879,7 +941,90 @@ fn build_boundary_cases(b: usize, quick: bool) -> (Vec<Case>, Vec<Vec<Step>>) {
     plans.push(vec![Step::Give(usize::MAX), Step::Interrupted]);
     plans.push(vec![Step::Give(usize::MAX), Step::Give(usize::MAX), Step::Interrupted]);
     plans.push(vec![Step::Give(usize::MAX), Step::Interrupted, Step::Interrupted]);
-    (cases, plans)
+    plans
+}
+
+/// `len` bytes of a repeating pattern; separator bytes or a sign that would end the text are replaced by
+/// the digit `last`, so that the text ends in a complete token and not in the middle of a CR LF.
+fn patterned(pattern: &[u8], len: usize, last: u8) -> Vec<u8> {
+    let mut v: Vec<u8> = pattern.iter().copied().cycle().take(len).collect();
+    while v.last().map_or(false, |&l| is_ws(l) || l == b'-') {
+        v.pop();
+    }
+    v.resize(len, last);
+    v
+}
+
+/// One word of `len` bytes: blocks of 997 equal letters, a..z in turn (997 is prime to the buffer size, so a
+/// dropped, repeated or misplaced buffer-sized piece changes the word; the run-length form stays small).
+fn huge_word(len: usize) -> Vec<u8> {
+    (0..len).map(|i| b'a' + ((i / 997) % 26) as u8).collect()
+}
+
+fn count_tokens(s: &[u8]) -> usize {
+    let mut r = RefP { s, p: 0 };
+    let mut n = 0;
+    while r.token().is_some() {
+        n += 1;
+    }
+    n
+}
+
+/// Inputs of SEVERAL buffer sizes.  Head: one word, or one line of space-separated integers, of 1x, 2x, 3x
+/// and 5x the observed buffer size b (each -1, +0, +1 bytes).  Tail: nothing, a single LF, or LF followed by
+/// b+1 resp. 2b further bytes of integer tokens in LF- and CRLF-terminated lines (unterminated last line).
+/// Scripts: String reads, read_line, read_lines, integer vectors (and the mixed token-then-line forms).  A
+/// second frame puts a short count token and a tab in front of the head (as in "3\t<huge>\n...").  So a
+/// token / line spans 1..5 refills and ends at, just before and just after a buffer boundary, with nothing,
+/// little, more than one buffer and two buffers of further input behind it.
+fn build_huge_cases(b: usize, quick: bool) -> Vec<Case> {
+    let mut cases = vec![];
+    let mults: &[usize] = if quick { &[1, 2, 3, 5] } else { &[1, 2, 3, 4, 5, 8] };
+    let int_line: &[u8] = b"-2147483648 65535 7 -1 4294967295 0 ";
+    let tail_lines: &[u8] = b"-9223372036854775808 42\r\n7 255 -1\n18446744073709551615\n\n";
+    for &m in mults {
+        for d in [-1isize, 0, 1] {
+            let t = (m * b) as isize + d;
+            if t < 2 {
+                continue;
+            }
+            let t = t as usize;
+            for tail_len in [0usize, 1, b + 1, 2 * b] {
+                let mut tail: Vec<u8> = vec![];
+                if tail_len >= 1 {
+                    tail.push(b'\n');
+                    tail.extend(patterned(tail_lines, tail_len - 1, b'3'));
+                }
+                let n_tail = count_tokens(&tail);
+                for word in [true, false] {
+                    let head = if word { huge_word(t) } else { patterned(int_line, t, b'1') };
+                    let n_head = if word { 1 } else { count_tokens(&head) };
+                    let head_ty = if word { Ty::Str } else { Ty::I64 };
+                    let plain: Vec<u8> = head.iter().chain(tail.iter()).copied().collect();
+                    let mut scripts: Vec<(bool, Vec<Op>)> = vec![
+                        // token reads through the whole input (String resp. integer vector)
+                        (false, vec![Op::Vec(head_ty, n_head), Op::Vec(Ty::I128, n_tail), Op::Eof]),
+                        (false, vec![Op::Line, Op::Line, Op::Line, Op::Eof]),
+                        (false, vec![Op::Lines, Op::Eof]),
+                        // the head token by token, then the rest of its line and the other lines
+                        (false, vec![Op::Vec(Ty::Str, n_head), Op::Line, Op::Lines]),
+                        // framed by a count token, as contest inputs are
+                        (true, vec![Op::Tok(Ty::Usize), Op::Vec(head_ty, n_head), Op::Vec(Ty::Str, n_tail), Op::Eof]),
+                    ];
+                    if !word {
+                        scripts.push((true, vec![Op::Tok(Ty::U8), Op::Line, Op::Lines]));
+                    }
+                    for (framed, script) in scripts {
+                        let input = if framed { b"3\t".iter().chain(plain.iter()).copied().collect() } else { plain.clone() };
+                        if reference(&input, &script).is_some() {
+                            cases.push(Case { input, script, mode: Delivery::Huge });
+                        }
+                    }
+                }
+            }
+        }
+    }
+    cases
 }
 
 // ---------------------------------------------------------------------------------------------
@@ -905,6 +1050,12 @@ struct Tot {
     plans_distinct_lens: u64,
     interrupted_execs: u64,
     straddle: u64,
+    /// the largest single request the reader made of the source, and the most read calls of one execution
+    max_ask: usize,
+    max_calls: usize,
+    /// time spent judging (evidence only: the share of the several-buffers family in the cost of the run)
+    busy_s: f64,
+    busy_huge_s: f64,
     outcomes: std::collections::HashSet<u64>,
     fails: Vec<Fail>,
 }
@@ -913,16 +1064,20 @@ fn judge(case: &Case, idx: usize, plans: &[Vec<Step>]) -> Tot {
     let mut t = Tot::default();
     let expect = reference(&case.input, &case.script).unwrap();
     t.cases = 1;
-    t.outcomes.insert(fnv(format!("{:?}", expect).as_bytes()));
+    t.outcomes.insert(fnv(expect.join("\u{1}").as_bytes()));
     // the default delivery (every read fills the buffer offered) of the same bytes: every other delivery
     // must return what this one returns, whatever the reference parser says
     let base = run_real(&case.input, &[], &case.script);
     t.execs += 1;
+    t.max_ask = base.max_ask;
+    t.max_calls = base.calls;
     let lone_cr = has_lone_cr(&case.input);
     let mut seen: [bool; 3] = [false; 3];
     for plan in plans {
         let ex = run_real(&case.input, plan, &case.script);
         t.execs += 1;
+        t.max_ask = t.max_ask.max(ex.max_ask);
+        t.max_calls = t.max_calls.max(ex.calls);
         let has_int = plan.contains(&Step::Interrupted);
         if has_int {
             t.interrupted_execs += 1;
@@ -1001,27 +1156,58 @@ fn describe(input: &[u8]) -> String {
     }
 }
 
+/// Replay form of an input: a list of [bytes, n] = the byte string repeated n times (periods up to 64 are
+/// detected; [byte, n] is a run of one byte), so that inputs of several buffer sizes stay small in replay files.
 fn compress_input(input: &[u8]) -> Value {
-    // run-length form so that 64 KiB inputs stay small in replay files
-    let mut runs: Vec<Value> = vec![];
+    fn flush(lit: &mut Vec<u8>, out: &mut Vec<Value>) {
+        if !lit.is_empty() {
+            out.push(json!([lit.clone(), 1]));
+            lit.clear();
+        }
+    }
+    let mut out: Vec<Value> = vec![];
+    let mut lit: Vec<u8> = vec![];
     let mut i = 0;
     while i < input.len() {
-        let mut j = i;
-        while j < input.len() && input[j] == input[i] {
-            j += 1;
+        // the period (<= 64) whose repetitions cover the most bytes from here on
+        let (mut best_p, mut best_cov) = (1usize, 1usize);
+        for p in 1..=64.min(input.len() - i) {
+            let mut j = i + p;
+            while j < input.len() && input[j] == input[j - p] {
+                j += 1;
+            }
+            let cov = (j - i) / p * p;
+            if cov >= 2 * p && cov > best_cov {
+                (best_p, best_cov) = (p, cov);
+            }
         }
-        runs.push(json!([input[i], j - i]));
-        i = j;
+        if best_cov < 8 {
+            lit.push(input[i]);
+            i += 1;
+            continue;
+        }
+        flush(&mut lit, &mut out);
+        if best_p == 1 {
+            out.push(json!([input[i], best_cov]));
+        } else {
+            out.push(json!([&input[i..i + best_p], best_cov / best_p]));
+        }
+        i += best_cov;
     }
-    Value::Array(runs)
+    flush(&mut lit, &mut out);
+    Value::Array(out)
 }
 
 fn expand_input(v: &Value) -> Vec<u8> {
     let mut out = vec![];
     for r in v.as_array().unwrap() {
-        let b = r[0].as_u64().unwrap() as u8;
-        let n = r[1].as_u64().unwrap() as usize;
-        out.extend(std::iter::repeat(b).take(n));
+        let unit: Vec<u8> = match r[0].as_array() {
+            Some(bytes) => bytes.iter().map(|x| x.as_u64().unwrap() as u8).collect(),
+            None => vec![r[0].as_u64().unwrap() as u8],
+        };
+        for _ in 0..r[1].as_u64().unwrap() {
+            out.extend_from_slice(&unit);
+        }
     }
     out
 }
@@ -1068,23 +1254,40 @@ fn main() {
     let closure_cr_run_inputs = closure.iter().filter(|c| c.input.windows(3).any(|w| w == b"\r\r\n")).count();
     let long = build_long_token_cases();
     let (boundary, boundary_plans) = build_boundary_cases(b, quick);
+    let huge = build_huge_cases(b, quick);
     let n_short = short.len();
     let n_long = long.len();
     let n_boundary = boundary.len();
-    let all: Vec<Case> = short.into_iter().chain(closure).chain(long).chain(boundary).collect();
+    let n_huge = huge.len();
+    let huge_bytes: u64 = huge.iter().map(|c| c.input.len() as u64).sum();
+    let huge_longest = huge.iter().map(|c| c.input.len()).max().unwrap_or(0);
+    let huge_plan_count = huge_plans(b, huge_longest).len();
+    // tokens / lines of >= 2 buffers followed by more than one further buffer of input
+    let huge_two_buffers_then_more_than_one = huge.iter().filter(|c| c.input.len() > 3 * b && c.input[2 * b..].iter().any(|&x| x == b'\n')).count();
+    let all: Vec<Case> = short.into_iter().chain(closure).chain(long).chain(boundary).chain(huge).collect();
 
     let tot = all
         .par_iter()
         .enumerate()
         .map(|(i, c)| {
-            let plans = plans_for(c, &boundary_plans);
-            judge(c, i, &plans)
+            let t0 = std::time::Instant::now();
+            let plans = plans_for(c, &boundary_plans, b);
+            let mut t = judge(c, i, &plans);
+            t.busy_s = t0.elapsed().as_secs_f64();
+            if c.mode == Delivery::Huge {
+                t.busy_huge_s = t.busy_s;
+            }
+            t
         })
         .reduce(Tot::default, |mut a, b| {
             a.execs += b.execs;
             a.cases += b.cases;
             a.interrupted_execs += b.interrupted_execs;
             a.straddle += b.straddle;
+            a.max_ask = a.max_ask.max(b.max_ask);
+            a.max_calls = a.max_calls.max(b.max_calls);
+            a.busy_s += b.busy_s;
+            a.busy_huge_s += b.busy_huge_s;
             a.outcomes.extend(b.outcomes);
             a.fails.extend(b.fails);
             a.plans_distinct_lens += b.plans_distinct_lens;
@@ -1117,22 +1320,37 @@ fn main() {
     run.cov("cases_ws_alphabet_closure_with_cr_cr_lf", closure_cr_run_inputs as u64);
     run.cov("cases_long_two_deviations", n_long as u64);
     run.cov("cases_buffer_boundary", n_boundary as u64);
+    run.cov("cases_several_buffers_long", n_huge as u64);
+    run.cov("cases_several_buffers_long_total_input_bytes", huge_bytes);
+    run.cov("cases_several_buffers_long_longest_input", huge_longest as u64);
+    run.cov("cases_several_buffers_long_deliveries_each", huge_plan_count as u64);
+    run.cov("cases_several_buffers_long_share_of_judging_time", (tot.busy_huge_s / tot.busy_s.max(1e-9) * 1000.0).round() / 1000.0);
+    run.cov("largest_single_request_made_of_the_source", tot.max_ask as u64);
+    run.cov("most_read_calls_in_one_execution", tot.max_calls as u64);
     run.cov("executions_with_interrupted", tot.interrupted_execs);
     run.cov("executions_with_short_read", tot.straddle);
     run.cov("distinct_expected_outcomes", tot.outcomes.len() as u64);
     run.cov("failing_cases_per_family", json!(fam_counts));
     run.cov("exhaustive", true);
-    run.cov("rule", "evaluations = executions of the real Reader (one per (input, script, delivery plan)); distinct_nontrivial = distinct (input, script) pairs accepted by the reference parser as valid scripts. Short inputs (<= 10 bytes quick / 13 thorough, built from tokens x separators incl. CRLF, lone CR, blank lines): ALL 2^(L-1) chunkings, plus every placement of <= 2 Interrupted for L <= 5 (quick) / 6 and <= 1 for L <= 7 / 9; EVERY byte string over {'7', SP, CR, LF} of length <= 7 (quick) / 8 (so every run of CRs before LF, CR CR at end of input, CR LF CR LF, LF CR, lone CR between tokens, at every position) under line scripts and mixed token/line scripts: ALL chunkings, plus <= 2 Interrupted for L <= 4 and <= 1 for L = 5; extreme values of all 12 integer types, tuples of arity 2..8 and multi-line text: every placement of <= 2 deviations (short read / Interrupted) plus byte-at-a-time; integers of every width (extreme values included) followed by 60-90 further bytes under mixed token/line scripts (tails with CR runs before the terminators included): additionally every uniform chunk size 1..=L; inputs as long as the observed internal buffer with the interesting bytes (extreme integers, sign/digit cuts, CR LF pairs, CR runs before LF, LF CR, CR CR at end of input) at every offset around the boundary under 21 listed plans. Oracle per case: every delivery must return what the default delivery (each read fills the buffer offered) of the same bytes returns (delivery_dependence, all inputs), and that common result must equal the reference parser's where the property defines it (reference_mismatch, inputs without a lone CR)");
+    run.cov("rule", "evaluations = executions of the real Reader (one per (input, script, delivery plan)); distinct_nontrivial = distinct (input, script) pairs accepted by the reference parser as valid scripts. Short inputs (<= 10 bytes quick / 13 thorough, built from tokens x separators incl. CRLF, lone CR, blank lines): ALL 2^(L-1) chunkings, plus every placement of <= 2 Interrupted for L <= 5 (quick) / 6 and <= 1 for L <= 7 / 9; EVERY byte string over {'7', SP, CR, LF} of length <= 7 (quick) / 8 (so every run of CRs before LF, CR CR at end of input, CR LF CR LF, LF CR, lone CR between tokens, at every position) under line scripts and mixed token/line scripts: ALL chunkings, plus <= 2 Interrupted for L <= 4 and <= 1 for L = 5; extreme values of all 12 integer types, tuples of arity 2..8 and multi-line text: every placement of <= 2 deviations (short read / Interrupted) plus byte-at-a-time; integers of every width (extreme values included) followed by 60-90 further bytes under mixed token/line scripts (tails with CR runs before the terminators included): additionally every uniform chunk size 1..=L; inputs as long as the observed internal buffer with the interesting bytes (extreme integers, sign/digit cuts, CR LF pairs, CR runs before LF, LF CR, CR CR at end of input) at every offset around the boundary under 21 listed plans; inputs of SEVERAL buffer sizes: a head that is one word or one line of space-separated integers of 1x, 2x, 3x, 5x the observed buffer size b (-1, +0, +1 bytes each; thorough also 4x, 8x), followed by nothing, one LF, or LF and b+1 resp. 2b further bytes of integer tokens in LF/CRLF lines, without and with a leading count token, read by String reads, read_line x3, read_lines, integer vectors and token-then-line scripts, each under: whole-input delivery (the source hands over as much as is asked for, however much - it never caps a request at b), uniform chunks of b-1, b, b+1, 2b, 3b+1 bytes, a half-buffer first read followed by b-sized ones, and the listed deviation plans with boundary shifts of 1 and 7 bytes. Oracle per case: every delivery must return what the default delivery (each read fills the buffer offered) of the same bytes returns (delivery_dependence, all inputs), and that common result must equal the reference parser's where the property defines it (reference_mismatch, inputs without a lone CR)");
     for c in all.iter().step_by((all.len() / 6).max(1)).take(6) {
         run.sample(json!({"input": describe(&c.input), "script": c.script.iter().map(op_to_json).collect::<Vec<_>>(), "expected": reference(&c.input, &c.script)}));
     }
     run.assume("reference parser: tokens are maximal runs of non-ASCII-whitespace; a line ends at LF or CRLF (terminator dropped), a CR not followed by LF is part of the line; the reference_mismatch family is not judged on inputs with a lone CR (the property does not define them), delivery_dependence is judged on all inputs");
+    run.assume("the harness's Read object hands over min(plan step, bytes asked for, bytes left): it never caps a request at the reader's buffer size, so a reader that asks for more than its buffer holds receives it (largest_single_request_made_of_the_source records the largest request seen)");
     run.assume("scripts the reference parser rejects (a token that is not there / does not fit the type) are outside the property and are not executed");
+    // the replay form of inputs must be lossless (checked on a sample of every family)
+    if let Some(c) = all.iter().step_by(997).chain(all[all.len() - n_huge..].iter().step_by(37)).find(|c| expand_input(&compress_input(&c.input)) != c.input) {
+        run.machinery_failure(&format!("the replay form of input {} does not expand to the input", describe(&c.input)));
+    }
     if closure_cr_run_inputs < 100 {
         run.machinery_failure("the whitespace-alphabet family contains too few inputs with a run of CRs before LF");
     }
     if tot.execs < 100_000 || tot.interrupted_execs < 1000 || tot.straddle < 1000 || n_boundary < 50 {
         run.machinery_failure("exploration implausibly small");
+    }
+    if n_huge < 100 || huge_longest < 7 * b || huge_two_buffers_then_more_than_one < 20 || tot.max_calls < 7 || tot.max_ask < b {
+        run.machinery_failure("the several-buffers family is too small (tokens of >= 2 buffers followed by > 1 buffer of input, executions with >= 7 read calls)");
     }
     if std::env::var("VCORE_CHILD").is_err() {
         // the same enumeration in a build with debug assertions and overflow checks
